@@ -253,9 +253,17 @@ def rule_scc(prog):
                     continue
                 for (c, pol) in q.conds:
                     for x in walk(c):
-                        if isinstance(x, App) and x.op == 'cmp' and \
-                                x.args[0].v == '>' and D is not None and \
-                                x.args[2] == _item(D, v) and pol:
+                        if not (isinstance(x, App) and x.op == 'cmp' and
+                                D is not None):
+                            continue
+                        o, a, b = x.args[0].v, x.args[1], x.args[2]
+                        if not pol:
+                            o = {'>': '<=', '<': '>=', '>=': '<',
+                                 '<=': '>'}.get(o, o)
+                        # disc[top] > disc[v]  (>= is the same: the root is
+                        # not on the component stack and disc is injective)
+                        if (o in ('>', '>=') and b == _item(D, v)) or \
+                                (o in ('<', '<=') and a == _item(D, v)):
                             popguard = True
             r3.inst(yields=[repr(x)[:40] for (x, k) in vals],
                     closes=[repr(x)[:40] for x in closed_vals],
